@@ -175,6 +175,10 @@ def gen_searchspec(ch, cfg: dict) -> SearchSpec:
     for k in range(1, n_dep + 1):
         items.append(("nt", "d_%d" % k))
         items.append(("lit", "_"))
+    with_many = ch.coin(cfg.get("many_matches_rate", 0.25), "spec", "many-matches")
+    if with_many:
+        # one comparison constraint evaluated on 6..11 nodes of one tree (a mean over k values)
+        items += [("nt", "mm"), ("lit", "|")]
     with_pair = ch.coin(cfg.get("pair_rate", 0.4), "spec", "pair")
     if with_pair:
         items += [("lit", "|"), ("nt", "pr")]
@@ -186,6 +190,10 @@ def gen_searchspec(ch, cfg: dict) -> SearchSpec:
         s.rules["qa"] = ("rx", r"[a-c]", "l")
         s.rules["qb"] = ("rx", r"[a-c]", "l")
     s.with_pair = with_pair
+    if with_many:
+        k_ = ch.pick([6, 7, 9, 10, 11], "spec", "many-k")
+        s.rules["mm"] = ("rep", ("cat", (("nt", "mx"), ("lit", "."))), k_, k_)
+        s.rules["mx"] = ("rx", r"[0-9]", "d")
     s.rules["fa"] = ("rx", r"[0-9]{1,3}", "d")
     s.rules["fb"] = ("rx", r"[0-9]{1,3}", "d")
     s.rules["fc"] = ("rx", r"[a-d]+", "l")
@@ -256,6 +264,11 @@ def gen_searchspec(ch, cfg: dict) -> SearchSpec:
         tpl = _templates(ch, allow_raising)
         if s.with_pair and ch.coin(0.4, "spec", "pair-tpl"):
             tpl = PAIR_TEMPLATES
+        prefer = cfg.get("prefer_kinds")
+        if prefer and ch.coin(0.5, "spec", "prefer-kind"):
+            # the check of one property leans towards the constraint shapes its mechanisms depend on
+            sub = [x for x in tpl if any(x[3].startswith(k_) for k_ in prefer)]
+            tpl = sub or tpl
         text, names, fn, kind = tpl[ch.draw(len(tpl), "spec", "tpl")]
         if names == "QUANT":
             def pred(m, fn=fn):
@@ -266,6 +279,10 @@ def gen_searchspec(ch, cfg: dict) -> SearchSpec:
             s.cons.append({"text": "where " + text, "names": [], "pred": pred, "kind": kind})
         else:
             s.cons.append({"text": "where " + text, "names": names, "pred": (lambda m, names=names, fn=fn: _all(m, names, fn)), "kind": kind})
+    if with_many:
+        lim = ch.pick([9, 9, 7], "spec", "many-lim")
+        s.cons.append({"text": "where int(<mx>) <= %d" % lim, "names": ["mx"], "pred": (lambda m, lim=lim: _all(m, ["mx"], lambda a: int(a) <= lim)), "kind": "cmp-many-matches"})
+        s.h += 1
     if with_grec:
         s.cons.append({"text": "where str(<hd>) == str(<tl>)", "names": ["hd", "tl"], "pred": (lambda m: _all(m, ["hd", "tl"], lambda a, b: a == b)), "kind": "eq-generator-record"})
         s.h += 1
